@@ -17,9 +17,21 @@
   What is NOT proved here (and said so in MANIFEST): copy-on-write sharing between clones — in the model a
   clone is the same persistent value, so `history_handles` below is a statement about the model only;
   the `RC::make_mut` behaviour is covered by the correspondence check (interleaved histories over several
-  handles).  V = il::Expression is covered by the correspondence only (`mode E` histories).
+  handles).
+
+  V = il::Expression (last section): `storeE`/`loadE` are the mirror of the same code with the `Value`
+  instance of `il::Expression` (trees built through the smart constructors, sort errors included).
+  `load_expr_hom` says that the Expression memory computes, symbolically, what the Constant memory
+  computes: whatever history of stores built the two memories (`MRel`: same cells, each expression related
+  to the constant in the same place), a load through the Expression memory, evaluated, is the load through
+  the Constant memory — same value, same `none`, same error, same panic.  It is proved once for any
+  relation closed under the five `Value` operations (`ValueRel`) and instantiated with closed evaluation
+  (`Expr.eval` = `executor::eval`), with compositional evaluation under any valuation of the scalars, and
+  with `State::symbolize_and_eval` in any executor state.  Hypothesis on stored expressions: they evaluate
+  to a constant of their own width (`VR` / `VRσ`), which holds for every well-sorted expression that
+  evaluates without division by zero in a state defining its scalars (`stored_ok`).
 -/
-import FalconProofs.C08.History
+import FalconProofs.C08.ExprState
 
 namespace Falcon.C08
 open Falcon Falcon.Paged
@@ -34,7 +46,7 @@ theorem store_inv {m : Mem} (I : Inv m) (a : Nat) (v : Const) (g : Good v) (hfit
     overlap pattern: values cut before, after, on both sides, several values, page crossings) -/
 theorem store_abs {m m' : Mem} (I : Inv m) (a : Nat) (v : Const) (g : Good v) (hfit : a + v.bits / 8 ≤ U64)
     (h : store m a v = .ok m') :
-    abs m' = write (abs m) a (bytesOf m.endian v) ∧ m'.endian = m.endian ∧ m'.backing = m.backing := by
+    abs m' = write (abs m) a (Paged.bytesOf m.endian v) ∧ m'.endian = m.endian ∧ m'.backing = m.backing := by
   obtain ⟨m'', h', _, habs, he, hb⟩ := store_spec I a v g hfit
   rw [h] at h'
   simp only [Res.ok.injEq] at h'
@@ -49,7 +61,7 @@ theorem load_spec {m : Mem} (I : Inv m) (a n : Nat) (h8 : n % 8 = 0) (hpos : 0 <
   Paged.load_spec I a n h8 hpos hs hfit
 
 /-- `read` is absent exactly when some byte of the range is absent -/
-theorem read_none_iff (b : Bytes) (a n : Nat) (e : Endian) :
+theorem read_none_iff (b : Bytes) (a n : Nat) (e : Paged.Endian) :
     read b a n e = none ↔ ∃ i, i < n ∧ b (a + i) = none := by
   simp only [Paged.read, Option.map_eq_none_iff]
   induction n generalizing a with
@@ -76,34 +88,34 @@ theorem read_none_iff (b : Bytes) (a n : Nat) (e : Endian) :
         simp [this]
 
 /-- the bytes of a value and the value of bytes are inverse: a load of exactly a stored value returns it -/
-theorem fromBytes_bytesOf (e : Endian) (c : Const) (h8 : c.bits % 8 = 0) (wf : c.val < 2 ^ c.bits) :
-    fromBytes e (bytesOf e c) = c := Paged.fromBytes_bytesOf e c h8 wf
+theorem fromBytes_bytesOf (e : Paged.Endian) (c : Const) (h8 : c.bits % 8 = 0) (wf : c.val < 2 ^ c.bits) :
+    fromBytes e (Paged.bytesOf e c) = c := Paged.fromBytes_bytesOf e c h8 wf
 
 /-- widths that are not positive multiples of 8 are rejected (and the memory, being a value, is unchanged) -/
 theorem store_non8 (m : Mem) (a : Nat) (v : Const) (h : ¬ (v.bits % 8 = 0 ∧ 0 < v.bits)) :
     store m a v = .err .other := store_non8' m a v h
 
 /-- the invariant holds initially -/
-theorem inv_init (e : Endian) (b : Option Backing) :
+theorem inv_init (e : Paged.Endian) (b : Option Backing) :
     Inv (match b with | some b => newWithBacking e b | none => new e) := by
   cases b with
   | none => exact inv_new e
   | some b => exact inv_newWithBacking e b
 
 /-- HISTORY: for every finite sequence of store / load / set_permissions operations (in the property's
-    domain, see `Op.inDomain`) applied to any memory satisfying the invariant, the model answers exactly
+    domain, see `Paged.Op.inDomain`) applied to any memory satisfying the invariant, the model answers exactly
     what the byte array answers: every load returns the bytes most recently stored at each address,
     falling back to the initial bytes. -/
-theorem history_from (m : Mem) (I : Inv m) (ops : List Op) (hdom : ∀ op ∈ ops, op.inDomain) :
+theorem history_from (m : Mem) (I : Inv m) (ops : List Paged.Op) (hdom : ∀ op ∈ ops, op.inDomain) :
     runModel m ops = runSpec m.endian (abs m) ops := history_gen ops m I hdom
 
 /-- … in particular from `Memory::new`: the byte array starts empty -/
-theorem history (e : Endian) (ops : List Op) (hdom : ∀ op ∈ ops, op.inDomain) :
+theorem history (e : Paged.Endian) (ops : List Paged.Op) (hdom : ∀ op ∈ ops, op.inDomain) :
     runModel (new e) ops = runSpec e (fun _ => none) ops :=
   history_gen ops (new e) (inv_new e) hdom
 
 /-- … and from `Memory::new_with_backing`: the byte array starts as the backing's bytes -/
-theorem history_backed (e : Endian) (b : Backing) (ops : List Op) (hdom : ∀ op ∈ ops, op.inDomain) :
+theorem history_backed (e : Paged.Endian) (b : Backing) (ops : List Paged.Op) (hdom : ∀ op ∈ ops, op.inDomain) :
     runModel (newWithBacking e b) ops = runSpec e b.get8 ops :=
   history_gen ops (newWithBacking e b) (inv_newWithBacking e b) hdom
 
@@ -139,13 +151,13 @@ theorem perm_store_frame {m m' : Mem} {a : Nat} {v : Const} (h : store m a v = .
     permissions m' x = permissions m x := store_permissions h x
 
 /-- addresses whose permissions were never set report the backing's: initially … -/
-theorem perm_default (e : Endian) (b : Backing) (x : Nat) :
+theorem perm_default (e : Paged.Endian) (b : Backing) (x : Nat) :
     permissions (newWithBacking e b) x = b.permissions x ∧ permissions (new e) x = none := ⟨rfl, rfl⟩
 
 /-- … and along any history, for an address whose page no `set_permissions` range touched
     (page granularity: `set_permissions` is documented as setting permissions per page) -/
-theorem perm_default_history : ∀ (ops : List Op) (m : Mem) (x : Nat),
-    (∀ a len p, Op.setPerm a len p ∈ ops → pageOf x < pageOf a ∨ a + len ≤ pageOf x) →
+theorem perm_default_history : ∀ (ops : List Paged.Op) (m : Mem) (x : Nat),
+    (∀ a len p, Paged.Op.setPerm a len p ∈ ops → pageOf x < pageOf a ∨ a + len ≤ pageOf x) →
     ∀ m', (ops.foldl (fun (m : Mem) op =>
         match op with
         | .store a v => (match store m a v with | .ok m' => m' | _ => m)
@@ -158,7 +170,7 @@ theorem perm_default_history : ∀ (ops : List Op) (m : Mem) (x : Nat),
   | cons op t ih =>
     intro m x hun m' h
     simp only [List.foldl_cons] at h
-    have ht : ∀ a len p, Op.setPerm a len p ∈ t → pageOf x < pageOf a ∨ a + len ≤ pageOf x :=
+    have ht : ∀ a len p, Paged.Op.setPerm a len p ∈ t → pageOf x < pageOf a ∨ a + len ≤ pageOf x :=
       fun a len p hm => hun a len p (List.mem_cons_of_mem _ hm)
     rw [ih _ x ht m' h]
     cases op with
@@ -171,6 +183,80 @@ theorem perm_default_history : ∀ (ops : List Op) (m : Mem) (x : Nat),
     | load _ _ => rfl
     | setPerm a len p => exact perm_other' m a len p x (hun a len p (List.mem_cons_self ..))
 
+/-! ### V = il::Expression -/
+
+/-- stores through the two instances succeed or fail together and keep the memories related -/
+theorem store_expr_hom {VRel : Expr → Const → Prop} (V : ValueRel VRel) {mE : MemE} {mC : Mem}
+    (R : MRel VRel mE mC) (a : Nat) {e : Expr} {c : Const} (hv : VRel e c) :
+    RelRes (MRel VRel) (storeE mE a e) (store mC a c) := store_rel V R a hv
+
+/-- LOAD HOMOMORPHISM, general form: for any value relation closed under the `Value` operations whose
+    related pairs evaluate (`sound`), evaluating what the Expression memory loads is loading from the
+    Constant memory — for every address and every width (valid or not) -/
+theorem load_expr_hom {ev : Expr → Res Const} {VRel : Expr → Const → Prop} (V : ValueRel VRel)
+    (sound : ∀ e c, VRel e c → ev e = .ok c) {mE : MemE} {mC : Mem} (R : MRel VRel mE mC) (a n : Nat) :
+    evalLoad ev (loadE mE a n) = load mC a n := evalLoad_of_rel sound (load_rel V R a n)
+
+/-- … for closed evaluation `executor::eval` -/
+theorem load_expr_hom_eval {mE : MemE} {mC : Mem} (R : MRel (VR Expr.eval) mE mC) (a n : Nat) :
+    evalLoad Expr.eval (loadE mE a n) = load mC a n :=
+  load_expr_hom (valueRel_of_evaluator evaluator_eval) (fun _ _ h => h.1) R a n
+
+/-- … for compositional evaluation under any valuation `ρ` of the scalars -/
+theorem load_expr_hom_valuation (ρ : Scalar → Res Const) {mE : MemE} {mC : Mem}
+    (R : MRel (VR (evalWith ρ)) mE mC) (a n : Nat) :
+    evalLoad (evalWith ρ) (loadE mE a n) = load mC a n :=
+  load_expr_hom (valueRel_of_evaluator (evaluator_evalWith ρ)) (fun _ _ h => h.1) R a n
+
+/-- … for `State::symbolize_and_eval` in any executor state `σ` (no well-sortedness assumption on the
+    expression `loadE` builds: the relation carries the symbolised tree along) -/
+theorem load_expr_hom_state (σ : State) {mE : MemE} {mC : Mem} (R : MRel (VRσ σ) mE mC) (a n : Nat) :
+    evalLoad σ.evalIn (loadE mE a n) = load mC a n :=
+  load_expr_hom (valueRel_state σ) (fun _ _ h => h.sound) R a n
+
+/-- the hypothesis on stored expressions holds for every well-sorted expression that evaluates in a state
+    defining its scalars; and there `symbolize_and_eval` is the compositional evaluation -/
+theorem stored_ok (σ : State) (e : Expr) (hw : e.wellSorted = true) (hd : ∀ s ∈ e.scalars, σ.Defines s)
+    {c : Const} (hc : σ.evalIn e = .ok c) :
+    VRσ σ e c ∧ VR (evalWith (valuationOf σ)) e c ∧ σ.evalIn e = evalWith (valuationOf σ) e :=
+  ⟨vrσ_of_wellSorted σ e hw hd hc, vr_of_wellSorted σ e hw hd hc, evalIn_eq_evalWith σ e hw hd⟩
+
+/-- the empty memories are related, and `set_permissions` keeps them related with equal permissions -/
+theorem expr_init (VRel : Expr → Const → Prop) (en : Paged.Endian) (b : Backing) :
+    MRel VRel (newE en) (new en) ∧ MRel VRel (newWithBackingE en b) (newWithBacking en b) :=
+  ⟨mrel_new VRel en, mrel_newWithBacking VRel en b⟩
+
+theorem expr_perm {VRel : Expr → Const → Prop} {mE : MemE} {mC : Mem} (R : MRel VRel mE mC) (a len p x : Nat) :
+    MRel VRel (setPermissionsE mE a len p) (setPermissions mC a len p) ∧ permissionsE mE x = permissions mC x :=
+  ⟨setPermissions_rel R a len p, permissions_rel R x⟩
+
+/-- HISTORY for the Expression memory, general form: any history whose stored expressions are related to
+    constants answers (loads evaluated) what the Constant memory answers on the evaluated history -/
+theorem history_expr_model {ev : Expr → Res Const} {VRel : Expr → Const → Prop} (V : ValueRel VRel)
+    (sound : ∀ e c, VRel e c → ev e = .ok c) {eops : List EOp} {ops : List Paged.Op} (h : OpsRel VRel eops ops)
+    {mE : MemE} {mC : Mem} (R : MRel VRel mE mC) : runE ev mE eops = runModel mC ops :=
+  runE_eq_runModel V sound h R
+
+/-- HISTORY for the Expression memory in an executor state: for every finite history of stores of
+    well-sorted expressions (evaluating in `σ`, see `EOp.okIn`), loads and `set_permissions` from
+    `Memory::<Expression>::new`, the loaded expressions evaluate in `σ` to exactly what the byte array of
+    the stored expressions' values answers -/
+theorem history_expr (σ : State) (en : Paged.Endian) (eops : List EOp) (h : ∀ o ∈ eops, o.okIn σ) :
+    ∃ ops, OpsRel (VRσ σ) eops ops ∧ runE σ.evalIn (newE en) eops = runSpec en (fun _ => none) ops := by
+  obtain ⟨ops, hr, hd⟩ := exists_ops σ eops h
+  refine ⟨ops, hr, ?_⟩
+  rw [runE_eq_runModel (valueRel_state σ) (fun _ _ h => h.sound) hr (mrel_new _ en)]
+  exact history en ops hd
+
+/-- … and from `new_with_backing` -/
+theorem history_expr_backed (σ : State) (en : Paged.Endian) (b : Backing) (eops : List EOp)
+    (h : ∀ o ∈ eops, o.okIn σ) :
+    ∃ ops, OpsRel (VRσ σ) eops ops ∧ runE σ.evalIn (newWithBackingE en b) eops = runSpec en b.get8 ops := by
+  obtain ⟨ops, hr, hd⟩ := exists_ops σ eops h
+  refine ⟨ops, hr, ?_⟩
+  rw [runE_eq_runModel (valueRel_state σ) (fun _ _ h => h.sound) hr (mrel_newWithBacking _ en b)]
+  exact history_backed en b ops hd
+
 /-! ### non-vacuity: concrete instances meet the hypotheses and exercise the interesting paths -/
 
 /-- a big-endian history that cuts a 32-bit value on both sides and reads across the cut -/
@@ -180,14 +266,23 @@ example :
     [.stored, .stored, .loaded (some ⟨32, 0xAA1122DD⟩), .loaded none, .loaded (some ⟨8, 0x22⟩)] := by
   decide
 
-example : ∀ op ∈ [Op.store 0x3fe ⟨32, 0xAABBCCDD⟩, .store 0x3ff ⟨16, 0x1122⟩, .load 0x3fe 32], op.inDomain := by
+example : ∀ op ∈ [Paged.Op.store 0x3fe ⟨32, 0xAABBCCDD⟩, .store 0x3ff ⟨16, 0x1122⟩, .load 0x3fe 32], op.inDomain := by
   intro op h
   simp only [List.mem_cons, List.mem_nil_iff, or_false] at h
-  rcases h with rfl | rfl | rfl <;> simp [Op.inDomain, U64_eq]
+  rcases h with rfl | rfl | rfl <;> simp [Paged.Op.inDomain, U64_eq]
 
 example : Good ⟨32, 0xAABBCCDD⟩ := ⟨by decide, by decide, by decide, by decide⟩
 
 /-- permissions above page 0 (the case that used to set nothing) -/
 example : permissions (setPermissions (new .little) 0x2000 0x10 3) 0x2005 = some 3 := by decide
+
+/-- the Expression memory on symbolic values: two scalars stored, cut by a third store, a load across the
+    cut evaluated in a state -/
+example :
+    let σ : State := { scalars := [("x", ⟨32, 0xAABBCCDD⟩), ("y", ⟨16, 0x1122⟩)] }
+    runE σ.evalIn (newE .big)
+      [.store 0x3fe (.scalar ⟨"x", 32, none⟩), .store 0x3ff (.scalar ⟨"y", 16, none⟩), .load 0x3fe 32] =
+    [.stored, .stored, .loaded (some ⟨32, 0xAA1122DD⟩)] := by
+  decide
 
 end Falcon.C08
